@@ -88,6 +88,8 @@ const canaryText = "CANARY-CONTENT-FROM-THE-REAL-FILE-SYSTEM"
 
 func suiteC11(cfg Config, res *Result) {
 	defer c11UnderscoreNames(res)
+	defer c11AddLoaderLater(res)
+	defer c11ReentrantLoader(res)
 	defer c11RecursiveInclude(res)
 	defer twoBaseDirs(res, "loaders", "c11-two-base-dirs")
 	defer c11IncludeOptions(res)
